@@ -85,7 +85,30 @@ TOK = re.compile(r"""
    (?P<ob>\{) | (?P<cb>\})
 """, re.X)
 
-def analyse(name, body):
+LOCK_KINDS = ("wr", "rd", "un", "ml", "mu")
+
+def lock_wrappers(src, funcs):
+    """Functions and one-line macros that do nothing but one lock operation: a call of such a
+    wrapper is that lock operation (a harmless refactoring must not blind the skeleton)."""
+    w = {}
+    for name, body in funcs:
+        kinds = [m.lastgroup for m in TOK.finditer(body) if m.lastgroup not in ("ob", "cb", "ret")]
+        if len(kinds) == 1 and kinds[0] in LOCK_KINDS and body.count(";") <= 3:
+            w[name] = kinds[0]
+    for m in re.finditer(r"^[ \t]*#[ \t]*define[ \t]+(\w+)(?:\([^)]*\))?[ \t]+(.*)$", src, flags=re.M):
+        kinds = [t.lastgroup for t in TOK.finditer(m.group(2)) if t.lastgroup not in ("ob", "cb", "ret")]
+        if len(kinds) == 1 and kinds[0] in LOCK_KINDS:
+            w[m.group(1)] = kinds[0]
+    return w
+
+def analyse(name, body, wrappers=None):
+    if wrappers:
+        # rewrite calls of lock wrappers into the primitive they stand for
+        prim = {"wr": "rwlock_wrlock(&active_instances_rwlock", "rd": "rwlock_rdlock(&active_instances_rwlock",
+                "un": "rwlock_unlock(&active_instances_rwlock", "ml": "pthread_mutex_lock(&init_mutex", "mu": "pthread_mutex_unlock(&init_mutex"}
+        for wn, kind in wrappers.items():
+            if wn != name:
+                body = re.sub(r"\b%s\b\s*(\(\s*\))?" % re.escape(wn), prim[kind] + ")", body)
     events = []
     rd = wr = mx = False
     stack = []          # (rd, wr, mx) at block entry
@@ -127,8 +150,11 @@ def main():
             src = strip_comments(open(p).read())
         except Exception as e:
             print("gen_sync: cannot read %s: %s" % (rel, e), file=sys.stderr); sys.exit(3)
-        for name, body in functions(src):
-            ev = analyse(name, body)
+        funcs = functions(src)
+        wrappers = lock_wrappers(src, funcs)
+        for name, body in funcs:
+            if name in wrappers: continue
+            ev = analyse(name, body, wrappers)
             if ev:
                 allf.append((rel.split("/")[-1], name, ev))
     must = ["liberasurecode_backend_instance_get_by_desc", "liberasurecode_backend_instance_register",
